@@ -9,9 +9,23 @@
 (* A trace is [events |-> <<event>>]; events:                              *)
 (*   [op |-> "doc", d]            a new document: <<paragraph>> of patterns*)
 (*   [op |-> "setfiles", k, ps]   paragraph k gets the Files value ps      *)
+(*   [op |-> "rawset", k, ps]     the same, written through the Deb822 the *)
+(*                                creator of FilesParagraph(data) kept     *)
+(*   [op |-> "addfiles", ps]      add_files_paragraph: the new paragraph   *)
+(*                                is the LAST Files paragraph, identity    *)
+(*                                Len(doc) + 1 (GlobFind.tla)              *)
+(*   [op |-> "addlicense"] [op |-> "reparse"] [op |-> "touch"]             *)
+(*                                a stand-alone License paragraph added /  *)
+(*                                the document dumped and parsed again /   *)
+(*                                another field of a paragraph edited:     *)
+(*                                nothing a lookup may depend on changes   *)
 (*   [op |-> "matches", k, n, res]  res in "match"/"nomatch"/"FormatError" *)
-(*   [op |-> "find", n, res]      res = index of the returned paragraph,   *)
-(*                                0 = None, -1 = ValueError                *)
+(*   [op |-> "find", n, res]      res = IDENTITY of the returned paragraph *)
+(*                                (its number in the order the Files       *)
+(*                                paragraphs came into the document; the   *)
+(*                                harness follows objects, and tags that   *)
+(*                                survive dump + parse), 0 = None,         *)
+(*                                -1 = ValueError                          *)
 (*   [op |-> "translate", ps, res]  rx = globs_to_re(ps) called directly   *)
 (*                                (patterns may contain LF and blanks):    *)
 (*                                res = "ok" / "FormatError"; rx keeps its *)
@@ -42,8 +56,12 @@ TInit == /\ tid \in 1..Len(Traces)
 TStep == /\ l <= Len(Tr.events)
          /\ LET e == Tr.events[l] IN
               \/ e.op = "doc" /\ doc' = e.d /\ n' = n /\ seen' = {} /\ UNCHANGED tl
-              \/ /\ e.op = "setfiles" /\ e.k \in 1..Len(doc)
+              \/ /\ e.op \in {"setfiles", "rawset"} /\ e.k \in 1..Len(doc)
                  /\ doc' = [doc EXCEPT ![e.k] = e.ps] /\ n' = n /\ seen' = {} /\ UNCHANGED tl
+              \/ /\ e.op = "addfiles"
+                 /\ doc' = Append(doc, e.ps) /\ n' = n /\ seen' = {} /\ UNCHANGED tl
+              \/ /\ e.op \in {"addlicense", "reparse", "touch"}
+                 /\ seen' = {} /\ UNCHANGED <<doc, n, tl>>
               \/ /\ e.op = "matches" /\ e.k \in 1..Len(doc)
                  /\ doc' = doc /\ n' = e.n /\ UNCHANGED <<tl, seen>>
                  /\ e.res = RefMatches(doc[e.k], e.n)
